@@ -70,12 +70,12 @@ def main():
         coq_build(["Model/SimCases.vo"])
     n = 1600 if thorough else 300
     scs = [simgen.gen_scenario(rng, {"kinds": ["L"] * 9 + ["LOC", "MOC"], "p_manage": 0.6, "p_fok": 0.2}) for _ in range(n)]
-    simcheck.run_family(ck, "whole_loop", scs, propcheck.c04, "C04", "loop")
+    simcheck.run_family(ck, "whole_loop", scs, propcheck.c04, "C04", "loop", hyp=True)
     scs2 = [simgen.gen_scenario(rng, {"kinds": ["L"], "p_manage": 0.7, "p_susp": 0.3, "p_inplay": 0.2, "p_remove": 0.12, "min_upd": 8, "max_upd": 14}) for _ in range(n // 2)]
-    simcheck.run_family(ck, "suspend_inplay_removal", scs2, propcheck.c04, "C04", "loop2")
+    simcheck.run_family(ck, "suspend_inplay_removal", scs2, propcheck.c04, "C04", "loop2", hyp=True)
     # structured family: a request in flight while the order is filled / lapsed / voided (the latency window races)
     scs3 = [race_scenario(rng) for _ in range(n // 2)]
-    simcheck.run_family(ck, "requests_in_flight_races", scs3, propcheck.c04, "C04", "race")
+    simcheck.run_family(ck, "requests_in_flight_races", scs3, propcheck.c04, "C04", "race", hyp=True)
     return ck.finish("whole-loop scenarios on the real FlumineSimulation (book changes, trades, suspend/re-open with and without version change, turn in-play with BSP reconciliation, runner removal, closure) x scripts of place/cancel (full, partial, larger than the remainder)/replace/update at any timing x plain/fill-or-kill/three persistence types x best-price execution on/off x full-match; buckets sampled at every strategy call; compared with the Coq model (both tie-breaks) and checked by an independent conservation checker")
 
 
